@@ -59,9 +59,11 @@ func (w *lgBuf) Write(p []byte) (int, error) { w.b = append(w.b, p...); return l
 type lgCapture struct {
 	records []string // rendered records
 	trace   *[]string
+	min     slog.Level // records below are not enabled (zero value with all = true: everything is)
+	all     bool
 }
 
-func (h *lgCapture) Enabled(context.Context, slog.Level) bool { return true }
+func (h *lgCapture) Enabled(_ context.Context, l slog.Level) bool { return h.all || l >= h.min }
 func (h *lgCapture) WithAttrs([]slog.Attr) slog.Handler       { return h }
 func (h *lgCapture) WithGroup(string) slog.Handler            { return h }
 func (h *lgCapture) Handle(_ context.Context, r slog.Record) error {
@@ -290,7 +292,7 @@ func runLogger(fields []string) string {
 	lgOnce.Do(func() { log.SetOutput(io.Discard) })
 	gres, rres, cust, wrap := fields[2], fields[3], fields[4] == "1" || fields[4] == "3", fields[4] == "2" || fields[4] == "3"
 	var trace, trace2 []string
-	cap := &lgCapture{trace: &trace}
+	cap := &lgCapture{trace: &trace, all: true}
 	withL, err := lgRouter(true, cap, &trace, gres, rres, cust, wrap)
 	if err != nil {
 		return "I=bad-router:" + err.Error()
@@ -305,6 +307,14 @@ func runLogger(fields []string) string {
 	restore := fox.VerifSwapDefaultLogOutput(&dout, &derr)
 	defer restore()
 	withD, err := lgRouter(true, nil, &trace3, gres, rres, cust, wrap)
+	if err != nil {
+		return "I=bad-router:" + err.Error()
+	}
+	// a fourth router whose handler enables WARN and ERROR only (a production setting): it must receive exactly the
+	// records of those levels, unchanged
+	var trace4 []string
+	capW := &lgCapture{trace: &trace4, min: slog.LevelWarn}
+	withW, err := lgRouter(true, capW, &trace4, gres, rres, cust, wrap)
 	if err != nil {
 		return "I=bad-router:" + err.Error()
 	}
@@ -344,6 +354,17 @@ func runLogger(fields []string) string {
 			if lv := strings.SplitN(rec, ":", 2)[0]; !strings.Contains(string(dout.b)+string(derr.b), lv) {
 				oracle = append(oracle, fmt.Sprintf("item %s: the record of fox.Logger() does not carry the level %s: %q", it, lv, string(dout.b)+string(derr.b)))
 			}
+		}
+		trace4, capW.records = trace4[:0], nil
+		_ = lgServe(withW, &trace4, item)
+		var wantW []string
+		for _, rc := range cap.records {
+			if strings.HasPrefix(rc, "WARN") || strings.HasPrefix(rc, "ERROR") {
+				wantW = append(wantW, rc)
+			}
+		}
+		if strings.Join(capW.records, "\x01") != strings.Join(wantW, "\x01") {
+			oracle = append(oracle, fmt.Sprintf("item %s: a handler enabled from WARN up received %q, the records of these levels are %q", it, capW.records, wantW))
 		}
 		is = append(is, itoa(n)+":"+rec+":"+keys+":"+strings.Join(trace, ".")+":"+pan)
 		// the property fixes the level for 2xx-5xx only: for any other reported status the level is not compared
